@@ -62,3 +62,15 @@ def fill(claim, NA):
 		  "checks. String-key helpers and predicates are harness-only reference tests (labelled).",
 		  "Trusted: Lean kernel + 3 axioms; harness. Modelled not verified: helpers.py functions listed (Model/Helpers.lean). FFT vs direct convolution agree only up to "
 		  "rounding (FP); that the Irwin-Hall formula is the true cdf is not proved. NumPy's searchsorted/argmin/fft are black boxes.")
+
+	claim('C18',
+		  "Theorems (Props/C18.lean): Coherent (unique labels; predecessor/successor lists mutual inverses; no dangling labels; no duplicate entries) holds for the "
+		  "empty network and is preserved by add_node, add_edge, add_successor, add_predecessor, remove_node and reindex_nodes (any map injective on the labels): "
+		  "coherent_addNode/_link/_addSucc/_addPred/_addEdge/_removeNode/_reindex, coherent_apply; hence after ANY operation sequence of any length "
+		  "(coherent_reachable, induction over the op list); removeNode_gone; edges_iff_preds (both adjacency lists describe the same graph); "
+		  "toEchelon_mono and local_echelon_inverse (echelon<->local conversion is the identity on non-negative local levels, any number of stages). "
+		  "Tie: random operation sequences on real SupplyChainNetwork objects with the structure dumped through the public accessors after every operation "
+		  "(nodes order, adjacency lists, edges, sources, sinks, descendants, ancestors, accepted/KeyError) compared exactly with the model, plus the coherence "
+		  "predicate on the real objects; level conversions vs model. Builders' topology/attribute placement and derived BOM views: reference predicates in the harness (labelled tests).",
+		  "Trusted: Lean kernel + 3 axioms; harness. Modelled not verified: supply_chain_network.py:468-719, supply_chain_node.py:1860-1938, 1598-1674 (Model/Graph.lean). "
+		  "NetworkX reachability is a black box re-implemented in the model. Product/BOM mutators, builders and build_node_data_dict are not in the Lean model.")
